@@ -65,7 +65,7 @@ DIFF_FILES = ["Values.tla", "Diff.tla", "MC_Diff.tla", "TraceDiff.tla"]
 
 def diff_key(ev):
     if ev["ev"] == "diff":
-        return {"t": "diff", "kind": ev["kind"], "a": ev["a"], "b": ev["b"], "col": ev["col"], "oa": ev["oa"], "ob": ev["ob"]}
+        return {"t": "diff", "via": ev.get("via", "update"), "kind": ev["kind"], "a": ev["a"], "b": ev["b"], "col": ev["col"], "oa": ev["oa"], "ob": ev["ob"]}
     return {"t": "peer", "kind": ev["kind"], "a": ev["a"], "b": ev["d"], "col": ev["col"]}
 
 
@@ -107,7 +107,8 @@ def run_c10(prop, tier):
            "samples": [r["sample"] for r in res[:2] if r["sample"]], "known_findings_seen": verdict["known"],
            "rule": "all pairs of subsets of a 4-element universe, all pairs of maps over 3 keys x 2 values, optionals, atoms (TLC enumerates, "
                    "TLC checks the laws on the spec); each pair through AddOperation(update) -> Modify -> JSON -> AddRowUpdate2 on a fresh "
-                   "model, for integer/string/real/uuid columns and 5 element orders; plus seeded random larger values"}
+                   "model, for integer/string/real/uuid columns and 5 element orders; sets and maps also through one mutate operation "
+                   "(delete what goes, insert what comes, a mutation without effect first or last); plus seeded random larger values"}
     write_evidence(prop, tier, "model_checking", cov, time.time() - t0, violations=len(verdict["violations"]),
                    assumptions=["column values instantiated from an integer universe per column type"])
     return verdict
